@@ -66,7 +66,23 @@ package auth
 //@     requires i1 == i + 1 && 0 <= i && i < len(p) && p[i] == '*' && 0 <= j && j <= k && k <= len(s) && specGlob(p, s, i1, k) \
 //@     ensures specGlob(p, s, i, j) trigger specGlob(p, s, i1, k), specGlob(p, s, i, j)
 
+// completeness needs two more facts about the specification
+//@ lemma starUnfold(p string, s string, i int, j int) {C14} \
+//@     requires 0 <= i && i < len(p) && p[i] == '*' && 0 <= j && j <= len(s) && specGlob(p, s, i, j) \
+//@     ensures exists k int :: j <= k && k <= len(s) && specGlob(p, s, i + 1, k) induction len(s) - j
+//@ ghost func starFree(p string, a int, b int) bool = a >= b || (p[a] != '*' && starFree(p, a + 1, b))
+//@ lemma starFreeExtend(p string, a int, b int) {C14} \
+//@     requires 0 <= a && a <= b && b < len(p) && starFree(p, a, b) && p[b] != '*' \
+//@     ensures starFree(p, a, b + 1) induction b - a
+//@ lemma segmentConsumes(p string, s string, a int, b int, k int) {C14} \
+//@     requires 0 <= a && a <= b && b <= len(p) && starFree(p, a, b) && 0 <= k && k <= len(s) && specGlob(p, s, a, k) \
+//@     ensures k + (b - a) <= len(s) && specGlob(p, s, b, k + (b - a)) induction b - a
+
 //@ func (Resources) Match
+//@   ensures {C14} [glob-complete] specGlob(pattern, input, 0, 0) ==> ret0
+//@   loop 1 invariant {C14} [segment] starIdx >= 0 ==> sIdx - matchIdx == pIdx - starIdx - 1 && starFree(pattern, starIdx + 1, pIdx)
+//@   loop 1 invariant {C14} [complete] specGlob(pattern, input, 0, 0) ==> specGlob(pattern, input, pIdx, sIdx) || (starIdx >= 0 && (exists k int :: matchIdx < k && k <= len(input) && specGlob(pattern, input, starIdx + 1, k)))
+//@   loop 2 invariant {C14} [complete-tail] specGlob(pattern, input, 0, 0) ==> specGlob(pattern, input, pIdx, len(input))
 //@   ensures {C14} [glob-sound] ret0 ==> specGlob(pattern, input, 0, 0)
 //@   loop 1 invariant {C14} [bounds] 0 <= pIdx && pIdx <= len(pattern) && 0 <= sIdx && sIdx <= len(input) && -1 <= starIdx && starIdx < pIdx && 0 <= matchIdx && matchIdx <= sIdx
 //@   loop 1 invariant {C14} [suffix-match-suffices] specGlob(pattern, input, pIdx, sIdx) ==> specGlob(pattern, input, 0, 0)
